@@ -189,7 +189,7 @@ prop(
     rule=("limit from {16,20,24,32,64,100,256,1024,4096(,8192,20000)}; extras: none / 1-6 random / dense range of 1-40 / many (to 1000), plus limit-1 (p=2/3) and limit-2 (p=1/2); "
           "kind and close-on-exec per descriptor; redirect plan random incl. shorthands and start-up input; 1-3 such starts in a row in the same process, each with its own limit (so the limit rises and falls between starts). Non-trivial: an inheritable (no close-on-exec) descriptor >= 3 existed, or the highest "
           "permitted number was open and inheritable. Distinct: hash of limit, descriptor numbers and the redirect plan."),
-    essential=dict(quick=["inheritable-extra-descriptor", "highest-permitted-descriptor-open", "hundreds-of-descriptors", "tiny-limit", "large-limit", "concurrent-starts", "several-starts-in-one-process", "fork-mode", "parent-0-2-partly-closed"]),
+    essential=dict(quick=["inheritable-extra-descriptor", "highest-permitted-descriptor-open", "hundreds-of-descriptors", "thousands-of-descriptors-open", "tiny-limit", "large-limit", "concurrent-starts", "several-starts-in-one-process", "fork-mode", "parent-0-2-partly-closed"]),
     assumptions=[
         "descriptors at or above the soft limit (possible only if the limit was lowered after opening them) are outside the property's 'up to the descriptor limit'",
         "the refusal branch for limits above 1 048 576 is reached by a getrlimit value fault in C04, not here",
@@ -499,7 +499,7 @@ prop(
     technique="property-based generation of thread plans + ThreadSanitizer race detection + cross-talk invariants from the children's own reports",
     rule=("tape -> thread count, per thread worker/strerror, cycles (payload size, chunk size, reader/writer split), yield level, yield seed. Non-trivial: at least two threads were inside reproc_start "
           "concurrently (measured with an atomic), or a reader/writer pair overlapped. Distinct: hash of the plan."),
-    essential=dict(quick=["concurrent-starts", "four-or-more-concurrent-starts", "reader-writer-overlap", "strerror-threads", "run-threads"]),
+    essential=dict(quick=["concurrent-starts", "four-or-more-concurrent-starts", "reader-writer-overlap", "strerror-threads", "run-threads", "writer-fails-while-reader-reads"]),
     assumptions=["one operation of a kind per child at a time (README, Multithreading)", "REPROC_MULTITHREADED build (pthread_sigmask), as in the pinned baseline"],
 )
 
@@ -529,8 +529,8 @@ for _pid, _what in W2_WHAT.items():
     PROPS[_pid].setdefault("assumptions", []).append("engine W2 models one child per case and documented Win32 semantics (duplicate handles in a handle list and non-inheritable listed handles make CreateProcessW fail)")
 W2_ESSENTIAL = {
     "C01": ["child-exits", "terminated", "killed", "child-closed-its-exit-handle", "child-stopped-by-sigstop", "child-collected-by-someone-else"],
-    "C02": ["output-exceeds-socket-buffer", "child-gone-before-first-read", "startup-input", "engine:fork-mode"],
-    "C04": ["alloc-fault", "api-fault", "fault-fired", "restarted-after-failure"],
+    "C02": ["output-exceeds-socket-buffer", "child-gone-before-first-read", "startup-input", "engine:fork-mode", "via-drain:blocking-handle"],
+    "C04": ["alloc-fault", "api-fault", "fault-fired", "restarted-after-failure", "fault-pair:second-in-the-clean-up"],
     "C05": ["alloc-fault", "api-fault", "fault-fired", "destroy-while-running", "run-api:fault-fired", "run-api:fork option"],
     "C06": ["terminated", "killed", "destroy-while-running", "calls-on-failed-handle"],
     "C03": ["start-succeeded", "fork-mode"],
@@ -542,7 +542,7 @@ W2_ESSENTIAL = {
     "C09": ["poll-after-eof", "output-piped", "deadline-passed-before-poll", "deadline-passed-during-poll"],
     "C17": ["blocking-probe", "stdin-flood", "startup-input-beyond-capacity", "descendant-holds-stream:blocking", "small-pipes"],
     "C10": ["output-piped", "start-succeeded"],
-    "C11": ["start-succeeded", "restarted-after-failure", "child-cannot-read-limit:start-refused"],
+    "C11": ["start-succeeded", "restarted-after-failure", "child-cannot-read-limit:start-refused", "thousands-of-descriptors-open"],
 }
 for _pid, _cls in W2_ESSENTIAL.items():
     PROPS[_pid]["essential_optional"] = list(_cls) + ["win-alloc-fault", "win-api-fault"]
